@@ -183,6 +183,15 @@ Proof.
 Qed.
 Print Assumptions C05_geometry_load_is_read.
 
+(* lights: whenever Light.load and the class loader succeed, the light is the one the file describes -
+   the kind is the element under technique_common, the colour its <color>, every parameter of the kind
+   (point: constant / linear / quadratic attenuation, zfar; spot: the three attenuations, falloff angle and
+   exponent; none for ambient and directional) either the number of the element of that name or absent *)
+Theorem C05_light_load_is_read : forall numtab e v,
+  load_light_t numtab e = Ok v -> read_light numtab e = Some v.
+Proof. exact load_light_is_read. Qed.
+Print Assumptions C05_light_load_is_read.
+
 (* flat class loaders.  Cameras: x / y / znear / zfar as given, the aspect ratio dropped exactly when
    all three of x, y and aspect ratio are given, rejected (DaeMalformed) exactly when neither x nor y
    is given.  References (material -> effect, default scene -> visual scene, instance_* -> library
